@@ -90,6 +90,28 @@ PROPS = {
             "Deref/DerefMut/IntoIterator pass-throughs of HeaderList (callers can mutate the Vec directly)",
         ],
     },
+    "C20": {
+        "title": "Status helpers and error mapping",
+        "design_ref": "DESIGN.md section 4 (C20)",
+        "technique": "complete (loop-free, full-domain) Kani harnesses on the real crate: one generated per status-named constructor, "
+                     "one per error-mapping table; Verus for the close-on-5xx computation in write_response (C05 unit)",
+        "level_text": "Bit-precise proof by CBMC over complete harnesses: every `fn NAME_DDD` constructor found in src/response.rs yields kind "
+                      "Normal and code DDD (harnesses generated from the names in the working tree, so the set is exhaustive by construction); "
+                      "every HttpError variant maps to its documented status with body exactly the kind name / the fixed 413 text / the fixed "
+                      "500 text for arbitrary payload strings; is_1xx..is_5xx agree with the numeric class for all 65536 codes.",
+        "level_note": "Kani/CBMC trusted; payload strings are 0..2 arbitrary chars (the mapping never inspects them); that "
+                      "write_http_response emits `connection: close` iff asked is not covered (format!-built head).",
+        "verus": [],
+        "kani": ["c20"],
+        "assumptions": [
+            "the harnesses run on a scratch copy of the working tree with the harness module appended under cfg(kani)",
+            "payload strings of the three payload-carrying variants range over 0..=2 arbitrary Unicode scalar values; the mapping code never reads them",
+        ],
+        "not_covered": [
+            "serialisation of the mapped response (`connection: close` header) -- write_http_response builds its head with format!/write!",
+            "HttpError::is_server_error classifies TimerThreadNotStarted as not-a-server-error although it maps to 500 (observation, outside the property statement)",
+        ],
+    },
 }
 
 NOT_APPLICABLE = {}
